@@ -358,7 +358,7 @@ class RShift(Contract):
     and starts at (p.start + i) mod n, i.e. on the same nucleotide of the rotated sequence."""
     file, qual = FILE, "CircularRecord.__rshift__"
     props = ("C13", "C08", "C02")
-    variants = ("loc-some", "loc-none", "abstract-table")
+    variants = ("loc-some", "loc-none")
 
     def setup(self, ex, st, variant):
         from pyvc.models_bio import sym_feature, loc_facts
